@@ -325,6 +325,10 @@ def run_unit(prop, unit, pcfg, cache, usize=8, seed=None, want_canary=True, forc
             f = fn_at_line(gen, sp[0]['line_start'])
             if f is None or f.external: bad = None; break
             bad[(f.module, f.path)] = 'Verus front end: ' + d['message'][:200]
+            # one diagnostic may list further occurrences of the same construct in other functions (secondary spans)
+            for x in d['spans']:
+                f2 = fn_at_line(gen, x['line_start'])
+                if f2 is not None and not f2.external: bad.setdefault((f2.module, f2.path), 'Verus front end: ' + d['message'][:200])
         if bad:
             force.update(bad)
             return run_unit(prop, unit, pcfg, cache, usize, seed, want_canary, force, depth + 1)
@@ -478,6 +482,25 @@ def main():
                 if k == 'report': extra.setdefault('report', {}).update(v)
                 else: extra.setdefault(k, []).extend(v)
     except (ExtractError, Undecided, extract.RsxError) as e:
+        # the unit could not be verified at all (e.g. a contract no longer type-checks against a retyped data structure).  The
+        # code is still executable: the property's paired bounded oracles may find an input that fails on the real crate.
+        if not os.environ.get('VERIF_NO_REPLAY_SEARCH') and pcfg.get('replay_harnesses_thorough'):
+            import replay_search
+            allh = dict(replay_search.HARNESS); allh.update(replay_search.struct_harnesses())
+            hs = [h for h in pcfg['replay_harnesses_thorough'] if h != 'c02_*'] + (sorted(h for h in allh if h.startswith('c02_')) if 'c02_*' in pcfg['replay_harnesses_thorough'] else [])
+            t_end = time.time() + 3 * int(os.environ.get('VERIF_REPLAY_TIMEOUT', '400'))
+            for h in hs:
+                if time.time() > t_end: break
+                try: sr = dict(replay_search.search(h, timeout=int(os.environ.get('VERIF_REPLAY_TIMEOUT', '400'))), harness=h)
+                except Exception as e2: sr = {'status': 'search-error: %s' % e2, 'harness': h}
+                print('UNDECIDED property=%s: bounded search %s (%s): %s' % (prop, h, sr.get('bound', '?'), sr.get('status')))
+                if sr.get('status') == 'replayed-fails':
+                    f = {'obligation': 'bounded:replay:' + h, 'kind': 'undecided-by-verus+failing-input', 'fn': h, 'module': 'kani', 'src': 'kani/replay_src/checks.rs', 'line': 0,
+                         'clause': None, 'message': 'Verus could not verify the unit (%s); the bounded oracle %s found an input that fails on the real crate' % (str(e)[:300], h),
+                         'rendered': str(e)[:3000], 'props': [prop], 'labels': [], 'canary': None}
+                    pth = write_replay(prop, f, {'cmd': ''}, 0, sr)
+                    print('VIOLATION property=%s replay=%s obligation=%s function=%s %s failing-input-replayed-on-the-real-crate' % (prop, pth, f['obligation'], h, f['src']))
+                    return 1
         print('UNDECIDED property=%s: %s' % (prop, e))
         return 2
     obs, fails, undec = [], [], []
